@@ -7,6 +7,7 @@ from cv import flow, rules
 from cv.rules import events_of, order_after_success, none_after
 
 TITLE = "A backup killed at any point leaves a consistent, usable archive"
+TECHNIQUE = 'static analysis: MIR dominance by edge deletion over every ? and await exit (order of storage effects), provenance of block addresses, who-may-write over the call graph'
 EXPLANATION = (
     "A crash can only cut an execution between two storage operations, i.e. at an edge of the "
     "control-flow graph. The check proves by edge-deletion dominance on the MIR of the backup path that on "
